@@ -4,15 +4,15 @@
   Model: `Model/Router.lean` (the `End` operator) on top of `Model/Placement.lean` (which senders a
   replica has). Helper lemmas: `Lemmas/Router.lean`, `Lemmas/Placement.lean`.
 
-  What holds for the unchanged code: everything about `End` itself (exactly one sender per
-  downstream block for every non-broadcast strategy, every sender for broadcast, key-determined
-  target for group-by — identical on every producer of an all-to-all edge, hence for both inputs
-  of a hash-shipped join —, control elements to every connected replica with the
-  `Terminate`/feedback and `ignore` exceptions). What does NOT hold: a forward connection to a
-  consumer with `1 < k` replicas that lacks the same-(host, replica) partner delivers to NO
-  replica (finding F4): `forward_same_index_partial` + `forward_delivery_counterexample`.
+  What holds: exactly one sender per downstream block for every non-broadcast strategy, every
+  sender for broadcast, key-determined target for group-by — identical on every producer of an
+  all-to-all edge, hence for both inputs of a hash-shipped join —, control elements to every
+  connected replica with the `Terminate`/feedback and `ignore` exceptions, and forward
+  connections deliver to exactly one replica, the same-(host, replica) one when it exists
+  (`forward_same_index`; false before commit 3deb123, finding F4, see Model/Placement.lean).
 -/
 import NoirVerif.Lemmas.Router
+import NoirVerif.Props.C19
 namespace Noir.Router
 open Noir.Placement
 
@@ -213,62 +213,50 @@ theorem control_reaches_all (cfg : Cfg) (me : Nat) (next : List (Coord × Bool))
     · rintro ⟨p, ⟨hp, h1, h2⟩, rfl⟩; exact ⟨p, hp, rfl, h1, h2⟩
     · rintro ⟨p, hp, rfl, h1, h2⟩; exact ⟨p, ⟨hp, h1, h2⟩, rfl⟩
 
-/-
-  FULL statement (does NOT hold for the unchanged code, finding F4):
-
-    theorem forward_same_index (from_ to : BlockInfo) (hoo : from_.onlyOne = true)
-        (hne : to.replicas ≠ []) (f : Coord) (hf : f ∈ from_.replicas) (idx : Nat) :
-        let st := setup { strategy := .onlyOne } from_.id ((consumers from_ to false f).map (·, false))
-        ∃ t ∈ to.replicas, (dataTargets st idx).map st.coordAt = [some t] ∧
-          (partner to f ∈ to.replicas → t = partner to f)
--/
-
-/-- **C03 (forward), the part that holds.** On a forward edge the `End` of producer replica `f`
-    delivers every data element to the same-(host, replica) replica of the consumer block when it
-    exists, and to the single replica when the consumer has only one. -/
-theorem forward_same_index_partial (from_ to : BlockInfo) (hoo : from_.onlyOne = true) (f : Coord)
-    (idx : Nat) :
+/-- **C03 (forward), full strength.** On a non-fragile forward edge into a non-empty block the
+    `End` (strategy `OnlyOne`) of ANY producer replica `f` passes its set-up assertion and delivers
+    every data element to exactly one replica of the consumer block: the same-(host, replica) one
+    when it exists (otherwise the single replica, or the fallback replica chosen by
+    `build_execution_graph`). -/
+theorem forward_same_index (from_ to : BlockInfo) (hoo : from_.onlyOne = true)
+    (hne : to.replicas ≠ []) (f : Coord) (idx : Nat) :
     let cfg : Cfg := { strategy := .onlyOne }
     let st := setup cfg from_.id ((consumers from_ to false f).map (·, false))
-    (partner to f ∈ to.replicas →
-      (dataTargets st idx).map st.coordAt = [some (partner to f)] ∧ setupOk .onlyOne st.groups = true) ∧
-    (∀ t, to.replicas = [t] →
-      (dataTargets st idx).map st.coordAt = [some t] ∧ setupOk .onlyOne st.groups = true) := by
+    ∃ t ∈ to.replicas, (dataTargets st idx).map st.coordAt = [some t] ∧
+      setupOk .onlyOne st.groups = true ∧ (partner to f ∈ to.replicas → t = partner to f) := by
   intro cfg st
-  have single : ∀ t, consumers from_ to false f = [t] →
-      (dataTargets st idx).map st.coordAt = [some t] ∧ setupOk .onlyOne st.groups = true := by
-    intro t ht
-    have hs : st.senders = [⟨t, from_.id⟩] := by
-      simp [st, setup, senders, getSenders, ht, cfg]
+  obtain ⟨t, ht, hc, hpt⟩ := forward_exactly_one_consumer from_ to hoo hne f
+  refine ⟨t, ht, ?_, ?_, hpt⟩
+  · have hs : st.senders = [⟨t, from_.id⟩] := by
+      simp [st, setup, senders, getSenders, hc, cfg]
     have hg : st.groups = [[0]] := by
-      simp [st, setup, senders, getSenders, ht, cfg, groups, blocksOf, indexesOf]
-    simp [dataTargets, hg, State.coordAt, hs, setupOk, Nat.mod_one]
-  constructor
-  · intro hp
-    exact single _ (consumers_partner from_ to false f (by simp [hoo]) hp)
-  · intro t ht
-    apply single
-    rw [consumers_single from_ to false f (by simp [ht]), ht]
+      simp [st, setup, senders, getSenders, hc, cfg, groups, blocksOf, indexesOf]
+    simp [dataTargets, hg, State.coordAt, hs, Nat.mod_one]
+  · have hg : st.groups = [[0]] := by
+      simp [st, setup, senders, getSenders, hc, cfg, groups, blocksOf, indexesOf]
+    simp [hg, setupOk]
 
-/-- **F4 seen from the router.** 4 producer replicas, 3 consumer replicas (one local host, forward
-    edge): the `End` of producer replica `(0,0,3)` has no sender at all, so every data element it
-    pulls is delivered to nobody — and nothing fails: `setup` passes its `OnlyOne` assertion. -/
-theorem forward_delivery_counterexample :
+/-- the former F4 witness seen from the router (4 producer replicas, 3 consumer replicas, one
+    local host): the `End` of producer replica `(0,0,3)` now has the sender `(1,0,0)` and delivers
+    to it (before commit 3deb123 it had no sender and dropped every element) -/
+example :
     let from_ := blockInfo (.loc 4) ⟨0, .unlimited, true⟩
     let to := blockInfo (.loc 4) ⟨1, .limited 3, false⟩
     let cfg : Cfg := { strategy := .onlyOne }
     let st := setup cfg from_.id ((consumers from_ to false ⟨0, 0, 3⟩).map (·, false))
-    st.senders = [] ∧ setupOk .onlyOne st.groups = true ∧
-      (step cfg (fun (_ : Nat) => 0) 0 st (.item 42)).2 = [] := by
+    st.senders = [⟨⟨1, 0, 0⟩, 0⟩] ∧
+      (step cfg (fun (_ : Nat) => 0) 0 st (.item 42)).2 = [(0, .item 42)] := by
   intro from_ to cfg st
-  have hc : consumers from_ to false ⟨0, 0, 3⟩ = [] := by decide
-  have hs : st.senders = [] := by simp [st, setup, senders, getSenders, hc]
-  have hg : st.groups = [] := by
-    simp [st, setup, senders, getSenders, hc, groups, cfg, blocksOf]
-  refine ⟨hs, by simp [hg, setupOk], ?_⟩
+  have hc : consumers from_ to false ⟨0, 0, 3⟩ = [⟨1, 0, 0⟩] := by decide
+  have hid : from_.id = 0 := rfl
+  have hs : st.senders = [⟨⟨1, 0, 0⟩, 0⟩] := by
+    simp [st, setup, senders, getSenders, hc, cfg, hid]
+  have hg : st.groups = [[0]] := by
+    simp [st, setup, senders, getSenders, hc, cfg, groups, blocksOf, indexesOf]
+  refine ⟨hs, ?_⟩
   have hcl : st.closed = false := rfl
   have hp : st.panicked = false := rfl
-  simp [step, hcl, hp, dataTargets, hg, Elem.isTerm]
+  simp [step, hcl, hp, dataTargets, hg, Elem.isTerm, cfg, Strategy.index]
 
 /-! ## Non-vacuity -/
 
